@@ -14,6 +14,7 @@
  *        runs GenericSolver::execute with injected failures, then replays the accepted steps only on a
  *        fresh copy of the initial state, dumps both final states
  */
+#include <cmath>
 #include <iostream>
 #include <map>
 #include <set>
@@ -273,17 +274,54 @@ struct Physics {
   double last_t = 0;
   bool has_last = false;
   std::set<std::string> leaks;
+  //! everything an attempt may read (pers and end fields), as it was at the beginning of the last attempt
+  std::vector<std::pair<std::string, std::string>> snapshot;
+  std::vector<std::pair<std::string, std::string>> readable(mtest::StudyCurrentState& s) {
+    std::vector<std::pair<std::string, std::string>> r;
+    const bool raw = g_raw;
+    g_raw = true;
+    w->visit(s, [&r](const char* n, auto& f, const char* cls) {
+      const std::string c = cls;
+      if constexpr (!std::is_same_v<std::decay_t<decltype(f)>, int>) {
+        if ((c == "pers") || (c == "end")) r.push_back({n, get_tag(f)});
+      }
+    });
+    g_raw = raw;
+    return r;
+  }
   void attempt_start(mtest::StudyCurrentState& s, const real t) {
-    if (tag_mode && has_last && (t == last_t)) {
-      const double prev = id;
-      w->visit(s, [this, prev](const char* n, auto& f, const char* cls) {
-        const std::string c = cls;
-        if (((c == "pers") || (c == "end")) && holds(f, prev)) leaks.insert(n);
-      });
+    if (tag_mode) {
+      auto now = readable(s);
+      if (has_last && (t == last_t)) {
+        // the previous attempt was rejected: after `revert` everything readable must be as it was when
+        // that attempt started (the state was clean then)
+        const double prev = id;
+        w->visit(s, [this, prev](const char* n, auto& f, const char* cls) {
+          const std::string c = cls;
+          if (((c == "pers") || (c == "end")) && holds(f, prev)) leaks.insert(n);
+        });
+        for (std::size_t i = 0; (i < now.size()) && (i < snapshot.size()); ++i) {
+          if (now[i].second != snapshot[i].second) leaks.insert(now[i].first);
+        }
+      }
+      snapshot = std::move(now);
     }
     id += 1;
     last_t = t;
     has_last = true;
+  }
+  //! MTest::makeLinearPrediction on the unknowns
+  void prediction(mtest::StudyCurrentState& s, const real dt) {
+    if (tag_mode) return;
+    if (s.period > 1) {
+      const auto r = dt / s.dt_1;
+      for (std::size_t i = 0; i != s.u1.size(); ++i) s.u1[i] = s.u0[i] + (s.u0[i] - s.u_1[i]) * r;
+    }
+  }
+  static bool finite(mtest::StudyCurrentState& s) {
+    for (const auto x : s.u1)
+      if (!std::isfinite(x)) return false;
+    return true;
   }
   //! hash of everything an attempt may read: pers and end fields (recomp fields once prepare wrote them)
   Hasher view(mtest::StudyCurrentState& s, const bool with_recomp) {
@@ -340,7 +378,8 @@ static std::string run_once(World& w,
                             std::vector<std::pair<double, double>>& attempts,
                             std::vector<std::size_t>& accepted,
                             unsigned& period_before,
-                            Physics& ph) {
+                            Physics& ph,
+                            const bool finite_check = false) {
   MockStudy s;
   s.n = w.st.u0.size();
   s.script = script;
@@ -350,6 +389,11 @@ static std::string run_once(World& w,
   s.on_compute = [&ph](mtest::StudyCurrentState& st, Vector& r, real t, real dt, int call) {
     ph.compute(st, r, t, dt, call);
   };
+  s.on_prediction = [&ph](mtest::StudyCurrentState& st, real, real dt) { ph.prediction(st, dt); };
+  if (finite_check) {
+    // as MTest::checkConvergence: non finite unknowns never pass the convergence test
+    s.extra_convergence = [](mtest::StudyCurrentState& st) { return Physics::finite(st); };
+  }
   mtest::SolverWorkSpace wk;
   s.initializeWorkSpace(wk);
   period_before = w.st.period;
@@ -363,18 +407,16 @@ static std::string run_once(World& w,
     verdict = "exc:" + classify(e);
   }
   attempts = s.attempts;
-  // an attempt k was accepted iff the next attempt starts at a later time; for the last attempt the
-  // number of periods tells
-  const std::size_t nacc = w.st.period - period_before;
+  // an attempt was accepted iff an intermediate output followed it, or it is the last one of a run
+  // that returned normally (the period counter is part of the compared state: it is not used here)
   for (std::size_t k = 0; k != attempts.size(); ++k) {
     const bool last = (k + 1 == attempts.size());
-    if (!last) {
-      if (attempts[k + 1].first != attempts[k].first) accepted.push_back(k);
-    } else if (accepted.size() < nacc) {
-      accepted.push_back(k);
-    }
+    if (s.output_after[k] || (last && (verdict == "end"))) accepted.push_back(k);
   }
-  if (accepted.size() != nacc) verdict += "!accepted-count";
+  for (std::size_t k = 0; k + 1 < attempts.size(); ++k) {
+    const bool advanced = attempts[k + 1].first != attempts[k].first;
+    if ((attempts[k].second > 0) && (advanced != static_cast<bool>(s.output_after[k]))) verdict += "!accepted-detection";
+  }
   return verdict;
 }
 
@@ -453,7 +495,7 @@ static std::string op_run(Tokens& tk) {
     unsigned p0 = 0;
     const std::vector<Attempt> rest(script.begin() + static_cast<std::ptrdiff_t>(std::min(consumed, script.size())),
                                     script.end());
-    verdict = run_once(*w1, o, rest, times[i], times[i + 1], attempts, accepted, p0, ph1);
+    verdict = run_once(*w1, o, rest, times[i], times[i + 1], attempts, accepted, p0, ph1, aan == "none");
     for (const auto k : accepted) acc.push_back({attempts[k].first, attempts[k].second, rest[k]});
     rejected += attempts.size() - accepted.size();
     consumed += attempts.size();
@@ -472,7 +514,7 @@ static std::string op_run(Tokens& tk) {
     std::vector<std::pair<double, double>> attempts;
     std::vector<std::size_t> accepted;
     unsigned p0 = 0;
-    const auto v = run_once(*w2, o2, {a}, t, te, attempts, accepted, p0, ph2);
+    const auto v = run_once(*w2, o2, {a}, t, te, attempts, accepted, p0, ph2, aan == "none");
     if (v != "end") verdict2 = v;
   }
   out << " direct=" << verdict2 << " exact=" << (exact ? 1 : 0);
@@ -494,6 +536,7 @@ static std::string op_run(Tokens& tk) {
       v3 = run_once(*w3, o3, rest, times[i], times[i + 1], attempts, accepted, p0, ph3);
       c3 += attempts.size();
     }
+    out << " ctl=" << v3 << "/" << c3;
     out << " leak=";
     if (ph3.leaks.empty()) out << "-";
     bool first = true;
